@@ -23,6 +23,9 @@ pub enum Ev {
     SetComplete,
     /// trigger_transfer_at(object k, absolute time in ms or None)
     Trigger(usize, Option<i64>),
+    /// the read-only calls of the public API (fdt_xml_data, is_added, nb_objects, nb_transfers,
+    /// get_objects_in_fdt): they must not change what the sender does next
+    Query,
 }
 
 #[derive(Clone, Debug, PartialEq)]
@@ -179,6 +182,20 @@ impl SendSys {
             Ev::SetComplete => {
                 self.sender.set_complete();
                 self.log.push(Item::Api(ev.clone(), String::new()));
+            }
+            Ev::Query => {
+                let now = at_ms(self.now_ms);
+                let xml = self.sender.fdt_xml_data(now).map(|x| x.len()).unwrap_or(0);
+                let n = self.sender.nb_objects();
+                let inf = self.sender.get_objects_in_fdt().len();
+                let mut added = 0;
+                for t in self.toi_of.clone().into_iter().flatten() {
+                    if self.sender.is_added(t) {
+                        added += 1;
+                    }
+                    let _ = self.sender.nb_transfers(t);
+                }
+                self.log.push(Item::Api(ev.clone(), format!("xml={} n={} in_fdt={} added={}", xml > 0, n, inf, added)));
             }
             Ev::Trigger(k, t) => {
                 let r = match self.toi_of[*k] {
